@@ -63,6 +63,16 @@ impl HtmlWriter {
     }
 }
 
+impl HtmlWriter {
+    /// Appends `buf` to the buffer as HTML text: `&`, `<` and `>` are escaped, such that
+    /// nothing that is written through this writer (source code quoted in a diagnostic,
+    /// file names like `<input:1>`, …) can be interpreted as markup by a browser.
+    fn write_escaped(&mut self, buf: &[u8]) -> std::io::Result<usize> {
+        html_escape::encode_text_to_vec(String::from_utf8_lossy(buf), &mut self.buffer);
+        Ok(buf.len())
+    }
+}
+
 impl BufferedWriter for HtmlWriter {
     fn to_string(&self) -> String {
         String::from_utf8_lossy(&self.buffer).into()
@@ -75,26 +85,26 @@ impl std::io::Write for HtmlWriter {
             if color.fg() == Some(&Color::Red) {
                 self.buffer
                     .write_all("<span class=\"numbat-diagnostic-red\">".as_bytes())?;
-                let size = self.buffer.write(buf)?;
+                let size = self.write_escaped(buf)?;
                 self.buffer.write_all("</span>".as_bytes())?;
                 Ok(size)
             } else if color.fg() == Some(&Color::Blue) {
                 self.buffer
                     .write_all("<span class=\"numbat-diagnostic-blue\">".as_bytes())?;
-                let size = self.buffer.write(buf)?;
+                let size = self.write_escaped(buf)?;
                 self.buffer.write_all("</span>".as_bytes())?;
                 Ok(size)
             } else if color.bold() {
                 self.buffer
                     .write_all("<span class=\"numbat-diagnostic-bold\">".as_bytes())?;
-                let size = self.buffer.write(buf)?;
+                let size = self.write_escaped(buf)?;
                 self.buffer.write_all("</span>".as_bytes())?;
                 Ok(size)
             } else {
-                self.buffer.write(buf)
+                self.write_escaped(buf)
             }
         } else {
-            self.buffer.write(buf)
+            self.write_escaped(buf)
         }
     }
 
